@@ -20,6 +20,8 @@ const E3: [Option<EdgeKind>; 3] = [None, Some(EdgeKind::Explicit), Some(EdgeKind
 pub fn family(name: &str) -> Vec<Scenario> {
     match name {
         "G3" => scen::family_g(3, &scen::EDGE_OPTIONS),
+        "G3n" => scen::family_g_nosrc(3, &scen::EDGE_OPTIONS),
+        "PX" => scen::family_px(),
         "G4" => scen::family_g(4, &E3),
         "D3" => scen::family_d(3, &E4, false),
         "D3p" => scen::family_d(3, &E3, true),
@@ -42,19 +44,19 @@ pub fn family(name: &str) -> Vec<Scenario> {
 pub fn jobs(prop: &str, tier: Tier) -> Vec<(String, u64)> {
     let q = |fams: &[&str]| -> Vec<(String, u64)> { fams.iter().map(|f| (format!("sched:{}", f), 16)).collect() };
     match (prop, tier) {
-        ("C01", Tier::Quick) => q(&["G3", "D3", "F3q", "S", "R"]),
-        ("C01", Tier::Thorough) => q(&["G3", "G4", "D3", "D3p", "D4", "F3", "F4", "P3", "S", "R"]),
-        ("C04", Tier::Quick) => q(&["P3", "D3p", "S", "R"]),
-        ("C04", Tier::Thorough) => q(&["P3", "P4", "D3p", "D4", "F4", "S", "R"]),
+        ("C01", Tier::Quick) => q(&["G3", "G3n", "D3", "F3q", "S", "R"]),
+        ("C01", Tier::Thorough) => q(&["G3", "G3n", "PX", "G4", "D3", "D3p", "D4", "F3", "F4", "P3", "S", "R"]),
+        ("C04", Tier::Quick) => q(&["P3", "PX", "D3p", "S", "R"]),
+        ("C04", Tier::Thorough) => q(&["P3", "PX", "P4", "D3p", "D4", "F4", "S", "R"]),
         ("C05", Tier::Quick) => q(&["F3q", "S", "P3"]),
-        ("C05", Tier::Thorough) => q(&["F3", "F4", "S", "P3", "P4", "R"]),
-        ("C06", Tier::Quick) => q(&["V2", "V3", "G3", "S", "R", "P3", "F3q"]),
-        ("C06", Tier::Thorough) => q(&["V2", "V3", "G3", "G4", "D3", "D4", "F3", "S", "R", "P3", "P4", "T3"]),
+        ("C05", Tier::Thorough) => q(&["F3", "F4", "S", "P3", "PX", "P4", "R"]),
+        ("C06", Tier::Quick) => q(&["V2", "V3", "G3", "G3n", "PX", "S", "R", "P3", "F3q"]),
+        ("C06", Tier::Thorough) => q(&["V2", "V3", "G3", "G3n", "PX", "G4", "D3", "D4", "F3", "S", "R", "P3", "P4", "T3"]),
         ("C17", _) => q(&["R"]),
         ("C18", Tier::Quick) => q(&["T3", "R", "S", "V2"]),
         ("C18", Tier::Thorough) => q(&["T3", "R", "D3", "S", "V2", "V3"]),
-        ("C19", Tier::Quick) => q(&["G3", "D3", "F3q", "P3", "S", "R"]),
-        ("C19", Tier::Thorough) => q(&["G3", "G4", "D3", "D3p", "F3", "P3", "P4", "S", "R", "T3"]),
+        ("C19", Tier::Quick) => q(&["G3", "D3", "F3q", "P3", "PX", "S", "R"]),
+        ("C19", Tier::Thorough) => q(&["G3", "G3n", "PX", "G4", "D3", "D3p", "F3", "P3", "P4", "S", "R", "T3"]),
         _ => vec![],
     }
 }
@@ -750,6 +752,7 @@ pub fn monitor_c18(s: &Scenario, ex: &Execution) -> Findings {
 
 pub fn monitor_c19(s: &Scenario, ex: &Execution) -> Findings {
     let mut f = Findings::new();
+    let mut frames = 0usize;
     let phs = phases(s, ex);
     let mut successes_total = 0usize;
     for ph in &phs {
@@ -761,6 +764,7 @@ pub fn monitor_c19(s: &Scenario, ex: &Execution) -> Findings {
         let mut succ = 0usize;
         let mut started: Vec<usize> = Vec::new();
         let mut finished: Vec<usize> = Vec::new();
+        let mut last_counts: Option<[usize; 6]> = None;
         let cyclic_or_error = matches!(ex.result, BuildResult::Error(_));
         for (i, e) in ph.events.iter().enumerate() {
             match e {
@@ -803,11 +807,57 @@ pub fn monitor_c19(s: &Scenario, ex: &Execution) -> Findings {
                     }
                     last_done = c[4];
                     last_failed = c[5];
+                    last_counts = Some(*c);
+                }
+                Event::Frame(bytes) => {
+                    // What the tty display shows, parsed from the painted frame:
+                    // `[bar] D/T done, [F failed, ]R/Q running`.
+                    frames += 1;
+                    let text = String::from_utf8_lossy(bytes).to_string();
+                    let Some(line) = text.lines().find(|l| l.contains(" done, ") && l.ends_with(" running")) else {
+                        f.push(("frame-without-status-line".into(), format!("phase {} event {}: painted frame {:?} has no status line", ph.index, i, text)));
+                        continue;
+                    };
+                    let nums: Vec<usize> = line
+                        .rsplit(']')
+                        .next()
+                        .unwrap_or("")
+                        .split(|c: char| !c.is_ascii_digit())
+                        .filter(|t| !t.is_empty())
+                        .filter_map(|t| t.parse().ok())
+                        .collect();
+                    // D T [F] R Q
+                    let (d, t, fl, r, q) = match nums.len() {
+                        4 => (nums[0], nums[1], 0, nums[2], nums[3]),
+                        5 => (nums[0], nums[1], nums[2], nums[3], nums[4]),
+                        _ => {
+                            f.push(("frame-without-status-line".into(), format!("phase {} event {}: cannot read the status line {:?}", ph.index, i, line)));
+                            continue;
+                        }
+                    };
+                    let running_now = ph.running_at(i).len();
+                    if r != running_now {
+                        f.push(("displayed-running-count-wrong".into(), format!("phase {} event {}: the display says {} running ({:?}), {} commands are executing", ph.index, i, r, line, running_now)));
+                    }
+                    if let Some(c) = last_counts {
+                        if d != c[4] + c[5] || t != c.iter().sum::<usize>() || fl != c[5] || q != c[1] + c[2] + c[3] {
+                            f.push(("displayed-counts-differ-from-state-counts".into(), format!("phase {} event {}: the display says {:?}, the state counts are {:?}", ph.index, i, line, c)));
+                        }
+                    }
+                    // (the line may start with the erase sequence ESC [ J of the previous frame)
+                    let bar_part = line.rsplit("\x1b[J").next().unwrap_or(line);
+                    let bar_len = bar_part.find(']').map(|e| e.saturating_sub(bar_part.find('[').map(|s| s + 1).unwrap_or(0))).unwrap_or(0);
+                    if bar_len != 40 {
+                        f.push(("displayed-bar-width-wrong".into(), format!("phase {} event {}: the bar in {:?} is {} wide", ph.index, i, line, bar_len)));
+                    }
                 }
                 _ => {}
             }
         }
         successes_total += succ;
+    }
+    if exec::SHADOW_DISPLAY.load(std::sync::atomic::Ordering::Relaxed) && frames == 0 && ex.trace.iter().any(|e| matches!(e, Event::Counts(..))) {
+        f.push(("machinery:no-frames".into(), "the shadow display painted no frame although counts were updated".into()));
     }
     if let BuildResult::Success(n) = &ex.result {
         if *n != successes_total {
@@ -1032,6 +1082,12 @@ pub fn short_trace(ex: &Execution) -> String {
 pub fn run(ctx: &mut Ctx) -> ShardResult {
     let mut res = ShardResult::default();
     exec::install_hooks();
+    if ctx.prop == "C19" {
+        // C19 also watches what the tty display would show: a real fancy-console
+        // state is fed behind the forwarded progress and painted at every update.
+        exec::SHADOW_DISPLAY.store(true, std::sync::atomic::Ordering::Relaxed);
+        exec::discard_stdout();
+    }
     if let Some(case) = ctx.replay.clone() {
         let fam = case["family"].as_str().expect("family").to_string();
         let idx = case["index"].as_u64().expect("index") as usize;
